@@ -205,6 +205,10 @@ fn main() {
                         if v.is_empty() { out.push('-'); }
                         out.push(' ');
                         out.push(if std::str::from_utf8(&v).is_ok() { '1' } else { '0' });
+                        out.push(' ');
+                        let l = String::from_utf8_lossy(&v);
+                        if l.is_empty() { out.push('-'); }
+                        for b in l.as_bytes() { write!(out, "{:02x}", b).unwrap(); }
                         out.push('\n');
                     }
                     total += 1;
@@ -250,8 +254,10 @@ fn main() {
         }
         "utf16" => {
             let maxlen = a[2].parse::<usize>().expect("maxlen");
+            let dump = a.get(3).map(|s| s == "dump").unwrap_or(false);
             const ALPHA: [u16; 8] = [0x0041, 0x00e9, 0xd7ff, 0xd800, 0xdbff, 0xdc00, 0xdfff, 0xe000];
             let mut total = 0u64;
+            let mut out = String::new();
             for len in 0..=maxlen {
                 let n = (ALPHA.len() as u64).pow(len as u32);
                 for code in 0..n {
@@ -259,9 +265,25 @@ fn main() {
                     let mut c = code;
                     for _ in 0..len { v.push(ALPHA[(c % 8) as usize]); c /= 8; }
                     check_utf16(&v);
+                    if dump {
+                        use std::fmt::Write;
+                        if v.is_empty() { out.push('-'); }
+                        for u in &v { write!(out, "{:04x}", u).unwrap(); }
+                        out.push(' ');
+                        match String::from_utf16(&v) {
+                            Ok(s) => { if s.is_empty() { out.push('-'); } for b in s.as_bytes() { write!(out, "{:02x}", b).unwrap(); } }
+                            Err(_) => out.push_str("Err"),
+                        }
+                        out.push(' ');
+                        let l = String::from_utf16_lossy(&v);
+                        if l.is_empty() { out.push('-'); }
+                        for b in l.as_bytes() { write!(out, "{:02x}", b).unwrap(); }
+                        out.push('\n');
+                    }
                     total += 1;
                 }
             }
+            print!("{out}");
             // every short sequence after long valid text (lengths around the inline limit in UTF-8 bytes)
             for plen in [7usize, 8, 9, 15, 16, 17, 32] {
                 let pre: Vec<u16> = (0..plen).map(|i| 0x61 + (i % 26) as u16).collect();
